@@ -119,7 +119,8 @@ func GenCallableMethod(ctx *IContext, apply interface{}, proxy PFunc) uintptr {
 		// 生成桩代码,rdx 寄存器还原, 生成的调用将跳转到 proxy 函数
 		methodTyp := reflect.TypeOf(apply)
 		mockFunc := reflect.MakeFunc(methodTyp, proxy)
-		callStub, err := unexports2.FindFuncByName("reflect.makeFuncStub")
+		var callStub uintptr
+		callStub, err = unexports2.FindFuncByName("reflect.makeFuncStub")
 		if err != nil {
 			panic(fmt.Sprintf("make interface err: %v", err))
 		}
